@@ -29,3 +29,18 @@ func verifWrapCompiled(db DBI) DBI {
 	}
 	return db
 }
+
+// verifMinBucket / verifMaxBuckets, when positive, replace the bulk loader's bucket parameters
+// (30000 items, one bucket per CPU), so that a small data file is split into several buckets too.
+var verifMinBucket, verifMaxBuckets int
+
+// VerifSetBuckets sets the bucket parameters of every later bulk load; (0, 0) restores the defaults.
+func VerifSetBuckets(minBucketSize, maxBucketNum int) {
+	verifMinBucket, verifMaxBuckets = minBucketSize, maxBucketNum
+}
+
+func verifRebucket(b *Builder) {
+	if verifMinBucket > 0 && verifMaxBuckets > 0 {
+		b.createBuckets(verifMinBucket, verifMaxBuckets)
+	}
+}
